@@ -62,6 +62,83 @@ func Execute(h *History) *HistTrace {
 	return ht
 }
 
+// ExecuteOn runs the history on an existing database (no fresh state).
+func ExecuteOn(x *Exec, h *History) *HistTrace {
+	ht := &HistTrace{H: h}
+	for _, st := range h.Steps {
+		if st.Gen != nil {
+			continue
+		}
+		tr, err := x.RunStep(st)
+		if err != nil {
+			ht.Err = err
+			return ht
+		}
+		ht.Steps = append(ht.Steps, tr)
+	}
+	return ht
+}
+
+// AuditState asks the model to adopt the given dump and reports whether the
+// structural invariant holds on it; then runs the continuation in lock-step
+// from that state.
+func AuditAndContinue(x *Exec, cont *History) (string, Verdict) {
+	d0, err := x.Dump()
+	if err != nil {
+		return "harness: " + err.Error(), Verdict{Kind: KindHarness, Detail: err.Error()}
+	}
+	ht := ExecuteOn(x, cont)
+	var in bytes.Buffer
+	fmt.Fprintf(&in, "H %d\n", cont.ID)
+	fmt.Fprintf(&in, "S %d %s\n", nowMs(), d0)
+	for _, st := range ht.Steps {
+		in.WriteString("r " + st.R + "\n")
+		in.WriteString("d " + st.D + "\n")
+		for _, l := range st.Input {
+			in.WriteString(l + "\n")
+		}
+	}
+	cmd := exec.Command(ModelBin)
+	cmd.Stdin = &in
+	var out, errb bytes.Buffer
+	cmd.Stdout = &out
+	cmd.Stderr = &errb
+	if err := cmd.Run(); err != nil {
+		return "harness: modelrun: " + err.Error(), Verdict{Kind: KindHarness, Detail: errb.String()}
+	}
+	audit := "?"
+	var cur []ModelStep
+	var ms ModelStep
+	first := true
+	for _, line := range strings.Split(out.String(), "\n") {
+		if line == "" {
+			continue
+		}
+		switch line[0] {
+		case 'N':
+			if first {
+				audit = line[2:]
+				first = false
+			} else {
+				ms.N = line[2:]
+				cur = append(cur, ms)
+			}
+		case 'R':
+			ms = ModelStep{R: line[2:]}
+		case 'D':
+			ms.D = line[2:]
+		case 'V':
+			ms.V = line[2:]
+		case 'E':
+			return "harness: " + line, Verdict{Kind: KindHarness, Detail: line}
+		}
+	}
+	if ht.Err != nil {
+		return audit, Verdict{Kind: KindHarness, Detail: ht.Err.Error()}
+	}
+	return audit, Compare(ht, cur)
+}
+
 // ModelStep is the model's output for one step.
 type ModelStep struct {
 	R, D, V string
